@@ -60,15 +60,22 @@ Proof. exact release_needs_param_close. Qed.
 Print Assumptions C12_release_refuted_without_param_close.
 
 (* ---- faults are surfaced ---- *)
-(* PARTIAL. Full statement wanted: whenever the request body is consumed to its end and some source Read
-   fails, the call does not end in ROk. Proved here: a call that ends in ROk was never handed the upload
-   error by the pipe (both consumers of the pipe turn it into a failure), and an upload error, once raised,
-   stays on the pipe until the goroutine returns. The full statement is checked on the implementation by
-   every run (Check_C12, has_failing && body_consumed). *)
-Theorem C12_upload_failure_is_error_partial : forall fx prog sc,
+(* a failing upload source is never reported as a successful request: whenever some source Read of the
+   goroutine's program fails and the request body is consumed to its end before the outcome is decided (the
+   auth writer asked for the body, or the transport reads everything before it answers), the call fails —
+   for every program, every scenario, with or without the repairs *)
+Theorem C12_upload_failure_is_error : forall fx prog sc,
+  has_fail prog = true -> sc_param_err sc = false ->
+  (match sc_auth sc with AOk true | AFail true => True | _ => exists r, sc_transport sc = TRespond None r end) ->
+  c_result (call fx prog sc) = RFail.
+Proof. exact upload_failure_is_error. Qed.
+Print Assumptions C12_upload_failure_is_error.
+
+(* and in general: a call that ends in success was never handed the upload error by the pipe *)
+Theorem C12_success_saw_no_upload_error : forall fx prog sc,
   c_result (call fx prog sc) = ROk -> c_saw_upload_error (call fx prog sc) = false.
 Proof. exact success_saw_no_upload_error. Qed.
-Print Assumptions C12_upload_failure_is_error_partial.
+Print Assumptions C12_success_saw_no_upload_error.
 
 Theorem C12_upload_error_sticky : forall ro ops sk df cl dl,
   let st := run_writer ro ops sk df true cl dl in w_pipe_err st = true.
